@@ -12,6 +12,46 @@ resolved, arguments bound to the callee's parameters) and decide on the CFG:
 
 A subject that cannot be located is reported as undecided, a located subject that does not satisfy the condition as
 violated.
+
+Technique
+---------
+Numbers refer to the ALLOWED list of RULES_GUIDE.md ("What counts as *static* here").  No rule of this module runs
+/repo code or evaluates an expression of /repo on data chosen by the checker: there are no sample inputs, no numeric
+enumeration, no loop unrolling, no stream enumeration and no regex matching anywhere in it.  The only evaluation is
+constant folding of literals (`_c`) and three-valued evaluation of branch tests whose leaves are decided by a *named
+assumption* (`_tv` / `_spec`); the only iteration is the fixpoint of `_resolve` / `_aliases` over the facts / copies.
+
+* R1  1 (syntax tree, resolved callees `parse_raw_http` / the router itself, isinstance classes resolved to package
+      classes); 2 (CFG return/raise statements, `falls_off_end`, branch tests that dominate an exit); 3 (reaching
+      definitions of a returned local and conditional expressions followed back to the alternatives they select, each
+      with the symbolic facts it is selected under; temporaries inlined; `a or b` holding with `a` known to fail yields
+      `b` - unit resolution on facts compared as text, no solver); 5/6 (the exits are compared with the reference table
+      `_ROUTES` of the three transforms and the facts each requires).
+* R2  1 (stores to the routing attributes, resolved constructors, arguments bound to parameters/NamedTuple fields);
+      3 (single-definition temporaries inlined, alias closure over plain copies, key values followed to a constructor
+      parameter or element i of `derive_aes_hmac_keys(..)`); 6 (setting-key / reverse / build literals folded and
+      compared with the reference table of settings).  Structural lemma: `x.encode()`, `x.encode('utf-8')`,
+      `str.encode(x)` and `bytes(x, 'utf-8')` are the same str->bytes conversion.
+* R3  2 (CFG of the constructor specialised under the named assumptions "aes_rand and aes_key both truthy", "no key
+      material (all three falsy)", "the key is not None and its length is not 16": reachability of EXIT / of the
+      construction of the default keys); 3 (alias closure of the key l-value; tests that precede a later store to the
+      key are left symbolic); 1 (raise classes).  Lemmas: a truthy value is not None; under `len(v) != 16` exactly the
+      tests `len(v) == 16` / `len(v) != 16` (either operand order) are decided - every other test on the length stays
+      unknown (no arithmetic on lengths is attempted).
+* R4  1 (transform / recover / decrypt_metadata / encrypt_packet / constructor calls located through resolved callees,
+      arguments bound to parameters; who writes attributes of self); 2 (CFG of the decoder generator specialised per
+      member of the code's own finite vocabulary {ClientC2Data, ServerC2Data} - device 5 - to collect the packet class
+      each yield can produce; reachability between yields and state stores; dominating presence test of self.priv);
+      3 (temporaries inlined, terms compared structurally as normalised text, single returned constructor of a package
+      method followed); 6 (literal format strings / setting keys compared with finite tables).  Lemma (decimal id):
+      for an int n, `str(n)`, `'%d' % n` (also %i %u %s), `'{}'.format(n)` (also {0} {:d} {0:d}), `f'{n}'` (also !s !r
+      :d) and `b'%d' % n` (also %i %u) all denote its decimal digits, and UTF-8 / ASCII / Latin-1 encode such a string
+      to the same bytes (ASCII-compatible encodings); `hex/oct/bin/repr/chr/...(n)` and `n.to_bytes(..)` are located
+      conversions that are not that.  Recognised structurally, never by formatting a sample number.
+* R5  1/3 (the engine's may-raise summary over the call graph from the router, `csverif.effects.check_escape`; a raise
+      through a local is given the class of the instance bound to it by def-use).
+* R6  obligations of `rules.c04.run`, R7 obligations of `rules.c19.r5`, imported unchanged - their technique is stated
+      in (and audited with) those modules.
 """
 
 from __future__ import annotations
@@ -376,7 +416,13 @@ def run(ctx):
         "uses to build requests vs. the ones the decoder uses. Whole-session histories are not decided."
     )
     rep.not_decided = ["whole-session decoding over all interleavings", "metadata_cache / beacon_keys evolution over time", "packet contents"]
-    rep.trusted_base = ["CPython ast", "networkx dominators"]
+    rep.trusted_base = [
+        "CPython ast", "networkx dominators",
+        "named assumptions of R3 (key material truthy/falsy; key not None with len != 16) decide only `x`, `x is (not) None` and `len(x) ==/!= 16` tests - a truthy value is not None",
+        "lemma: str(n), '%d' % n, '{}'.format(n), f'{n}', b'%d' % n of an int n are its decimal digits; UTF-8, ASCII and Latin-1 encode them to the same bytes (recognised structurally)",
+        "lemma: x.encode(), x.encode('utf-8'), str.encode(x), bytes(x, 'utf-8') are the same str->bytes conversion",
+        "R6/R7 are the obligations of rules.c04 / rules.c19.r5 (their trusted base applies)",
+    ]
     r1(ctx)
     r2(ctx)
     r3(ctx)
